@@ -143,6 +143,10 @@ def cli(argv=sys.argv, mode='output'):
 
        See: https://massimolauria.net/cnfgen/graphformats.html"""
 
+    if args.input is None:
+        raise CLIError("the standard input is closed: use -i <file>")
+    if mode == 'output' and args.output is None:
+        raise CLIError("the standard output is closed: use -o <file>")
     with redirect_stdin(args.input), msg_prefix('c '):
 
         with msg_prefix('GRAPH INPUT: '):
